@@ -10,7 +10,8 @@ if os.environ.get("ONLY"):
     props = [p for p in props if p in os.environ["ONLY"].split(",")]
 if os.environ.get("SKIP_C19") and "C19" in props:
     props.remove("C19")      # C19 drives cargo in shared target dirs: skip when another scratch run is active
-repo = os.path.join(selftest.SCRATCH + "-benign", "repo")
+SUF = os.environ.get("BENIGN_SUFFIX", "")      # several instances may run side by side (own scratch copy, facts, target)
+repo = os.path.join(selftest.SCRATCH + "-benign" + SUF, "repo")
 os.makedirs(repo, exist_ok=True)
 for d in diffs:
     subprocess.run(["rsync", "-a", "--delete", "--exclude", "target", "--exclude", ".git", extract.REPO + "/", repo + "/"], check=True)
@@ -18,7 +19,7 @@ for d in diffs:
     if r.returncode:
         print(os.path.basename(d), "PATCH FAILED", r.stdout[-200:]); continue
     try:
-        facts = extract.extract("benign", repo=repo, target=os.path.join(extract.CACHE, "target-benign"))
+        facts = extract.extract("benign" + SUF, repo=repo, target=os.path.join(extract.CACHE, "target-benign" + SUF))
     except RuntimeError as e:
         print(os.path.basename(d), "BUILD FAILED", str(e)[:200]); continue
     fired = []
@@ -37,4 +38,4 @@ for d in diffs:
         except Exception as e:
             fired.append(p + "[EXC " + type(e).__name__ + "]")
     print(os.path.basename(d), "->", " ".join(fired) or "silent")
-shutil.rmtree(selftest.SCRATCH + "-benign", ignore_errors=True)
+shutil.rmtree(selftest.SCRATCH + "-benign" + SUF, ignore_errors=True)
